@@ -179,11 +179,13 @@ DP_FILES = {
     "/v/d1/d2/m.lay": "print('m body'); let c = 0; export let x = 'm'; export fn bump() { c = c + 1; return c; }",
     "/v/d1/d2/d3.lay": "print('d3 body'); export let x = 'd3';",
     "/v/d1/d2/d3/n.lay": "print('n body'); export let x = 'n';",
+    "/v/d1d2.lay": "print('d1d2 body'); export let x = 'd1d2';",       # names that are concatenations of other paths' segments
+    "/v/d1/d2m.lay": "print('d2m body'); export let x = 'd2m';",
     "/v/std.lay": "print('user std body'); export let x = 'ustd';",
     "/v/math.lay": "print('user math body'); export let x = 'umath';",
 }
 DP_PATHS = {"d1": ["d1"], "d2": ["d1", "d2"], "m": ["d1", "d2", "m"], "m_sel": ["d1", "d2", "m"], "n": ["d1", "d2", "d3", "n"], "n_sel": ["d1", "d2", "d3", "n"],
-            "ustd": ["std"], "umath": ["math"]}   # (`self` is a keyword: no module can be called that)
+            "d1d2": ["d1d2"], "d2m": ["d1", "d2m"], "ustd": ["std"], "umath": ["math"]}   # (`self` is a keyword: no module can be called that)
 DP_IMPORTS = list(DP_PATHS) + ["stdmath"]
 DP_BAD = ["d1.d2", "math.abs", "m.x"]   # no such package, whatever was imported before
 
